@@ -45,6 +45,15 @@ impl Module for Probe {
             send_in(Message::default().id(id), g, Duration::from_secs(2000));
         }
     }
+    fn at_sim_end(&mut self) -> Result<(), RuntimeError> {
+        // emissions during tear-down are never delivered: not in this simulation and not in the next one of the process
+        schedule_in(Message::default().id(7777), Duration::from_secs(1));
+        for (name, pos, id) in &self.send_on {
+            let g = current().gate(name, *pos).expect("gate exists");
+            send(Message::default().id(7000 + *id), g);
+        }
+        Ok(())
+    }
     fn handle_message(&mut self, msg: Message) {
         let h = msg.header();
         LOG.with(|l| {
